@@ -51,8 +51,8 @@ def lean_ty(t):
         k, v = t[5:].split('|')
         return 'List (%s × %s)' % (k.strip(), lean_ty(v))
     if t.startswith('Fn '):
-        d, c = t[3:].split('→')
-        return '%s → %s' % (lean_ty(d), lean_ty(c))
+        d, c = t[3:].split('→', 1)
+        return '%s → %s' % (paren(lean_ty(d)) if '→' in d else lean_ty(d), lean_ty(c))
     if t.startswith('KwFill '):
         return 'Option ' + t.split(' ', 1)[1]
     return t
@@ -90,7 +90,8 @@ class FnTr:
         self.f, self.spec, self.tree, self.by_py = fdef, spec, tree, by_py
         self.name = spec['lean_name']
         self.gen = spec['kind'] == 'generator'
-        self.decl = dict(spec['params'])
+        self.decl = dict(spec.get('ops', {}))
+        self.decl.update(spec['params'])
         self.decl.update(spec.get('locals', {}))
         self.loops = {}          # id(loop node) -> (def name, loop vars)
         self.defs = []           # texts of the loop definitions
@@ -201,12 +202,17 @@ class FnTr:
         """-> (Lean term, type)"""
         if isinstance(e, ast.Name):
             if e.id not in p.scope:
+                if p.kinds.get(e.id) == 'none':
+                    raise Unsupported(e, '%s (declared None) is used at run time' % e.id)
                 raise Unsupported(e, 'name %s may be unbound here, or is a global' % e.id)
             t = self.ty(e.id, p, e)
             if cls_of(t) == 'Msg':
                 raise Unsupported(e, 'a message value is used outside a raise')
             return e.id, t
         if isinstance(e, ast.Constant):
+            if isinstance(e.value, bool) and expect is not None and cls_of(expect) == 'Elem' \
+                    and self.spec.get('ops', {}).get('pyTrue') == expect and self.spec['ops'].get('pyFalse') == expect:
+                return ('pyTrue' if e.value else 'pyFalse'), expect     # the keys equal to True / False (declared)
             if isinstance(e.value, bool):
                 return ('true' if e.value else 'false'), 'Bool'
             if isinstance(e.value, int):
@@ -266,6 +272,12 @@ class FnTr:
                 else:
                     raise Unsupported(e, '`in` on a %s' % tb)
                 return (r if isinstance(op, ast.In) else '!(%s)' % r), 'Bool'
+            ops = self.spec.get('ops', {})
+            if isinstance(op, ast.Eq) and isinstance(b, ast.Name) and b.id not in p.scope and p.kinds.get(b.id) == 'none' \
+                    and 'isNone' in ops:
+                ca, ta = self.expr(a, p)
+                if cls_of(ta) == 'Elem':
+                    return '(isNone %s)' % ca, 'Bool'       # Python `x == None` on items: the declared operation
             ca, ta = self.expr(a, p)
             cb, tb = self.expr(b, p, ta)
             sym = {ast.Lt: '<', ast.LtE: '≤', ast.Gt: '>', ast.GtE: '≥', ast.Eq: '=', ast.NotEq: '≠'}.get(type(op))
@@ -286,6 +298,15 @@ class FnTr:
             if sym and ta == 'Int' and tb == 'Int':
                 return '(%s %s %s)' % (ca, sym, cb), 'Int'
             raise Unsupported(e, 'binary operation on %s and %s' % (ta, tb))
+        if isinstance(e, ast.Call) and isinstance(e.func, ast.Attribute) and e.func.attr == 'get' and not e.keywords \
+                and len(e.args) == 2 and isinstance(e.args[1], ast.List) and not e.args[1].elts \
+                and isinstance(e.func.value, ast.Name):
+            cd, td = self.expr(e.func.value, p)
+            if cls_of(td) == 'Dict':
+                kt, vt = [x.strip() for x in td[5:].split('|')]
+                ck, tk = self.expr(e.args[0], p, kt)
+                if tk == kt and cls_of(vt) == 'List':
+                    return '((%s.dictGet? %s %s).getD [])' % (RT, ck, cd), vt
         if isinstance(e, ast.Call) and isinstance(e.func, ast.Name) and not e.keywords:
             fn = e.func.id
             if fn in p.scope:
@@ -635,13 +656,11 @@ class FnTr:
             raise Unsupported(self.f, 'parameters %s, declared %s' % (names, list(self.spec['params'])))
         kinds = dict(self.spec.get('kinds', {}))
         lean_params = [(n, t) for n, t in self.spec['params'].items() if kinds.get(n) != 'none' and cls_of(t) != 'Msg']
+        lean_params = list(self.spec.get('ops', {}).items()) + lean_params
         p = Path(kinds, [n for n, _ in lean_params], {})
-        for n, k in kinds.items():
-            if k == 'none':
-                p.scope.append(n)          # bound (to None); every use must be decided by the kind
-        ops = self.spec.get('ops', {})
+        # a parameter of kind 'none' is not bound at run time: every use must be decided by the kind
         body = self.block(list(self.f.body), p, None)
-        sig = ' '.join('(%s : %s)' % (n, lean_ty(t)) for n, t in list(ops.items()) + lean_params)
+        sig = ' '.join('(%s : %s)' % (n, lean_ty(t)) for n, t in lean_params)
         if self.has_while:
             sig += ' (fuel : Nat)'
         doc = '/-- `%s` (lines %d-%d)%s -/' % (
